@@ -8,6 +8,26 @@ NOTE = ("Trusted base: rustc nightly front end + MIR (E1 facts come from the rea
         "necessary conditions on /repo's current source; does not execute goml programs or emitted Go.")
 
 CLAIMED = {
+ "C01": dict(
+   text="Semantic preservation is NOT decided. Decided on every arm of every pass: pass totality (no catch-all over the input IR, anchor "
+        "passes found with full coverage), no sub-term dropped, field homomorphism (no swapped branches/operands/arguments where a "
+        "variant is rebuilt), CST->AST lowering never loses an optional sub-tree silently, plus the evaluation-order and first-match "
+        "clauses shared with C09/C06. These are necessary conditions visible in the shape of the code.",
+   technique="static analysis: variant-coverage audit of IR traversals, child-use and def-use homomorphism rules on match arms, None-path summary",
+   ref="DESIGN.md section 4, C01"),
+ "C06": dict(
+   text="Static decision of the match compiler's order/fallback discipline: rows are never permuted (resolved callees), literal buckets are "
+        "insertion-ordered and seeded from the fallback rows, rows that do not constrain the column go unconditionally to every bucket, "
+        "fallback and default (int/string siblings agree), empty row sets fail, result type is threaded, scrutinee compiled once, struct "
+        "pattern elaboration follows declaration order. The decision tree's correctness for a given matrix is not decided.",
+   technique="static analysis: resolved-callee whitelist on row vectors, sibling cross-check of push tables, guard/shape rules",
+   ref="DESIGN.md section 4, C06"),
+ "C09": dict(
+   text="Static decision of where evaluation order is fixed: continuation nesting in ANF follows the declaration order of children, "
+        "logical operators' rhs must not be hoisted, branches and loop parts keep their own region (ANF and compile_while), DCE's effect "
+        "predicates are total and count acting/failing forms, `go` spawns once. Goroutine interleavings are not decided.",
+   technique="static analysis: continuation-nesting (syntactic dominance) rule, def-use into the loop body, coverage audit of effect predicates",
+   ref="DESIGN.md section 4, C09"),
  "C05": dict(
    text="Static decision of the scoping discipline in the two places that implement lexical scope: the scope constructs are derived "
         "from where the typer opens scopes; for each the AST->HIR resolver must resolve the scoped children in a child environment "
